@@ -248,8 +248,16 @@ func (r *runner) oneCase(e TypeEntry, cfgMask int, cfgErr bool) {
 				gotAdj, gotUpd, hasResult = rp.GetAdjust(), rp.GetUpdate(), true
 			case "UpdateContainer":
 				var rp *api.UpdateContainerResponse
-				rp, rerr = rr.Plugin.UpdateContainer(ctx, &api.UpdateContainerRequest{Pod: pod, Container: ctr, LinuxResources: res})
-				gotUpd, hasResult, wantRes = rp.GetUpdate(), true, res
+				ureq := &api.UpdateContainerRequest{Pod: pod, Container: ctr, LinuxResources: res}
+				wantRes = res
+				if r.seq%2 == 0 {
+					// a request that carries no resources, about a container that has some of its own: the handler is
+					// given what the message carries (nothing), not something looked up elsewhere
+					ctr.Linux = &api.LinuxContainer{Resources: &api.LinuxResources{Cpu: &api.LinuxCPU{Shares: &api.OptionalUInt64{Value: 77}}}}
+					ureq.LinuxResources, wantRes = nil, nil
+				}
+				rp, rerr = rr.Plugin.UpdateContainer(ctx, ureq)
+				gotUpd, hasResult = rp.GetUpdate(), true
 			case "StopContainer":
 				var rp *api.StopContainerResponse
 				rp, rerr = rr.Plugin.StopContainer(ctx, &api.StopContainerRequest{Pod: pod, Container: ctr})
